@@ -1,6 +1,7 @@
 //! elements-sim: deterministic simulation with fault injection for rust-elements.
 //! See /verif/DESIGN.md.
 
+mod corpus;
 mod ctx;
 mod gen;
 mod medium;
@@ -117,6 +118,9 @@ fn main() {
                 let r = runner::run_unit(u, ui as u64, seed, runs, flags.workers, spec.id, &slots);
                 println!("{} {} {} runs={} steps={} violations={} loghash={:016x}", spec.id, u.world.name(), u.scenario, runs, r.agg.steps, r.found.len(), r.loghash);
             }
+        }
+        "corpus-classify" => {
+            println!("{}", corpus::classify());
         }
         "gencase" => {
             if argv.len() < 6 {
